@@ -1715,6 +1715,8 @@ func c09SmallSweeps(c *core.Ctx, main *c09Space, memo *sync.Map) {
 			}
 		})
 	}
+	// PathMatchesQuery with keyed wildcard-name query elements (c09_starkeys.go)
+	runC09StarKeys(c)
 	// FindPathElemPrefix on triples, PathMatchesQuery with nil elements: space F
 	{
 		sp := c09GetSpace("F")
@@ -1874,6 +1876,9 @@ func runC09(c *core.Ctx) {
 }
 
 func replayC09(c *core.Ctx, raw []byte) (bool, string) {
+	if v, d, ok := replayC09StarKeys(raw); ok {
+		return v, d
+	}
 	var cs c09Case
 	if err := json.Unmarshal(raw, &cs); err != nil {
 		return false, err.Error()
